@@ -101,7 +101,22 @@ class CoefficientCollector(Mapper):
         return {1: expr}
 
     def map_algebraic_leaf(self, expr):
-        if self.target_names is None or expr.name in self.target_names:
+        if self.target_names is None:
             return {expr: 1}
-        else:
-            return {1: expr}
+
+        from pymbolic.primitives import Variable
+        if isinstance(expr, Variable):
+            if expr.name in self.target_names:
+                return {expr: 1}
+            else:
+                return {1: expr}
+
+        # Subscripts, calls and look-ups have no name of their own. They are
+        # constant with respect to the targets only if no target occurs
+        # anywhere in them; a target in an index or an argument is not affine.
+        from pymbolic.mapper.dependency import DependencyMapper
+        for dep in DependencyMapper(composite_leaves=False)(expr):
+            if dep.name in self.target_names:
+                raise RuntimeError("nonlinear expression")
+
+        return {1: expr}
